@@ -97,11 +97,13 @@ Definition incl_b (l r : list string) : bool :=
 Definition set_eq_b (a b : list string) : bool := incl_b a b && incl_b b a.
 
 (* LinkedGraph.__eq__ *)
-Definition graph_eq (g1 g2 : dg) : option bool :=
-  match sink_ids g1, sink_ids g2 with
+Definition graph_eq_ids (a b : option (list string)) : option bool :=
+  match a, b with
   | Some a, Some b => Some (set_eq_b a b)
   | _, _ => None
   end.
+
+Definition graph_eq (g1 g2 : dg) : option bool := graph_eq_ids (sink_ids g1) (sink_ids g2).
 
 (* sorted(self.nodes, key=lambda x: x.uid)[0] : first node carrying the least uid *)
 Fixpoint min_uid_from (best : nat) (bu : string) (i : nat) (rest : list node) : nat :=
@@ -136,15 +138,18 @@ Definition wf_b (g : dg) : bool :=
 (* ------------------------------------------------------------------------------------ *)
 Definition ap (fl : list nat) (v : nat) : nat := nth v fl 0.
 
-Fixpoint count (v : nat) (l : list nat) : nat :=
+Fixpoint remove1 (x : nat) (l : list nat) : option (list nat) :=
   match l with
-  | [] => 0
-  | x :: l' => (if Nat.eqb v x then 1 else 0) + count v l'
+  | [] => None
+  | y :: l' => if Nat.eqb x y then Some l' else option_map (cons y) (remove1 x l')
   end.
 
 (* same multiset of naturals *)
-Definition perm_b (l r : list nat) : bool :=
-  Nat.eqb (List.length l) (List.length r) && forallb (fun x => Nat.eqb (count x l) (count x r)) l.
+Fixpoint perm_b (l r : list nat) : bool :=
+  match l with
+  | [] => match r with [] => true | _ => false end
+  | x :: l' => match remove1 x r with Some r' => perm_b l' r' | None => false end
+  end.
 
 Fixpoint nodup_b (l : list nat) : bool :=
   match l with
@@ -305,12 +310,14 @@ Fixpoint list_opt_str_eqb (a : list (option string)) (b : list string) : bool :=
   | _, _ => false
   end.
 
-(* model = implementation on one graph *)
-Definition agree_g (g : dg) (o : gobs) : bool :=
-  opt_str_eqb (graph_id g) (o_gid o) && list_opt_str_eqb (all_descr g) (o_nids o) &&
-  opt_bool_eqb (graph_eq g g) (o_refl o) &&
-  opt_bool_eqb (graph_eq g g) (o_copy_eq o) && opt_bool_eqb (graph_eq g g) (o_copy_eq' o) &&
-  opt_str_eqb (graph_id g) (o_copy_gid o).
+(* model = implementation on one graph (s = sink_ids g, computed once) *)
+Definition agree_g (g : dg) (s : option (list string)) (o : gobs) : bool :=
+  let gid := graph_id g in
+  let self := graph_eq_ids s s in        (* = graph_eq g g; a deep copy is the same value *)
+  opt_str_eqb gid (o_gid o) && list_opt_str_eqb (all_descr g) (o_nids o) &&
+  opt_bool_eqb self (o_refl o) &&
+  opt_bool_eqb self (o_copy_eq o) && opt_bool_eqb self (o_copy_eq' o) &&
+  opt_str_eqb gid (o_copy_gid o).
 
 (* the single-graph clauses of the property on the observed behaviour: equality is
    reflexive, a deep copy equals its original (both ways) and has the same identifier *)
@@ -323,16 +330,27 @@ Record triple_obs := {
   eq12 : bool; eq21 : bool; eq23 : bool; eq32 : bool; eq13 : bool; eq31 : bool }.
 
 Definition agree_t (g1 g2 g3 : dg) (o1 o2 o3 : gobs) (t : triple_obs) : bool :=
-  agree_g g1 o1 && agree_g g2 o2 && agree_g g3 o3 &&
-  opt_bool_eqb (graph_eq g1 g2) (eq12 t) && opt_bool_eqb (graph_eq g2 g1) (eq21 t) &&
-  opt_bool_eqb (graph_eq g2 g3) (eq23 t) && opt_bool_eqb (graph_eq g3 g2) (eq32 t) &&
-  opt_bool_eqb (graph_eq g1 g3) (eq13 t) && opt_bool_eqb (graph_eq g3 g1) (eq31 t).
+  let s1 := sink_ids g1 in let s2 := sink_ids g2 in let s3 := sink_ids g3 in
+  agree_g g1 s1 o1 && agree_g g2 s2 o2 && agree_g g3 s3 o3 &&
+  (* graph_eq gi gj = graph_eq_ids si sj by definition *)
+  opt_bool_eqb (graph_eq_ids s1 s2) (eq12 t) && opt_bool_eqb (graph_eq_ids s2 s1) (eq21 t) &&
+  opt_bool_eqb (graph_eq_ids s2 s3) (eq23 t) && opt_bool_eqb (graph_eq_ids s3 s2) (eq32 t) &&
+  opt_bool_eqb (graph_eq_ids s1 s3) (eq13 t) && opt_bool_eqb (graph_eq_ids s3 s1) (eq31 t).
 
-(* isomorphic graphs compare equal both ways, have the same identifier, and corresponding
-   nodes have the same identifier *)
+(* the graph has a root node or is empty (true of every acyclic graph) *)
+Definition has_root_b (g : dg) : bool :=
+  match g with
+  | [] => true
+  | _ => match sinks g with [] => false | _ => true end
+  end.
+
+(* isomorphic graphs compare equal both ways, corresponding nodes have the same identifier,
+   and the graphs have the same identifier (graphs in which every node has a child - they
+   are cyclic, outside the property - take the identifier of the least-uid node and are
+   exempt from the last clause) *)
 Definition holds_iso (g1 g2 : dg) (fl : list nat) (o1 o2 : gobs) (e12 e21 : bool) : bool :=
   implb (iso_b g1 g2 fl)
-        (e12 && e21 && String.eqb (o_gid o1) (o_gid o2) &&
+        (e12 && e21 && implb (has_root_b g1) (String.eqb (o_gid o1) (o_gid o2)) &&
          list_str_eqb (o_nids o1) (map (fun v => nth (ap fl v) (o_nids o2) "") (seq 0 (List.length g1)))).
 
 Definition holds_t (g1 g2 g3 : dg) (f12 f23 : list nat) (o1 o2 o3 : gobs) (t : triple_obs) : bool :=
@@ -356,15 +374,15 @@ Fixpoint positions_from (i : nat) (row : list bool) : list nat :=
 
 Definition descr_tree (t : tree) : option string := descr (dg_of_tree t) 0.
 
-(* model: identifier string and the row of == (through graph_eq on the precomputed sink ids) *)
+(* model: identifier string and the row of == (graph_eq through the precomputed sink ids) *)
 Definition agree_tree (model_sinks : list (option (list string))) (t : tree)
            (obs_id : string) (obs_eq_row : list nat) : bool :=
-  opt_str_eqb (graph_id (dg_of_tree t)) obs_id && opt_str_eqb (descr_tree t) obs_id &&
+  let g := dg_of_tree t in
+  let s := sink_ids g in
+  opt_str_eqb (graph_id g) obs_id && opt_str_eqb (descr g 0) obs_id &&
   list_nat_eqb obs_eq_row
-    (positions_from 0 (map (fun s => match sink_ids (dg_of_tree t), s with
-                                     | Some a, Some b => set_eq_b a b
-                                     | _, _ => false
-                                     end) model_sinks)).
+    (positions_from 0 (map (fun s' => match graph_eq_ids s s' with Some b => b | None => false end)
+                           model_sinks)).
 
 (* property (both directions, for trees): == holds exactly for the pairs with the same
    canonical form, and so does equality of the identifiers *)
